@@ -194,7 +194,9 @@ def run_detect(c):
     fi = _fi()
     data = data_of(c['d'])
     if _tmpdir is None:
+        import atexit, shutil
         _tmpdir = tempfile.mkdtemp(prefix='C03_', dir='/var/tmp')
+        atexit.register(shutil.rmtree, _tmpdir, True)
     path = os.path.join(_tmpdir, 'img%d' % os.getpid())
     with open(path, 'wb') as f: f.write(data)
     seen = []
